@@ -1,6 +1,7 @@
 import PGM.Proofs.GbpFixedFlat
 import PGM.Proofs.GbpFixedShape
 import PGM.Proofs.GbpFixedChain
+import PGM.Properties.C17G
 /-!
 # C16F — generalised (region-graph) propagation at a fixed point
 
@@ -31,6 +32,11 @@ Proved.
    `pot[ru]` only — the known finding `gbp:subregion-potential`.
 3. `gbp_stationary` / `gbp_stationary_exact_two_cliques` — if the state reached after `n0` sweeps is reproduced by a
    sweep, `RG.gbp … iters` returns the same tables and messages for every `iters ≥ n0`; with item 2 they are exact.
+   **This is a WARM-START statement**: on a flat graph the damped sweep halves the distance to the fixed point and never
+   reaches it, so `hstat` holds only when the start state `m0` already has the fixed-point values
+   (`stationary_forces_start`, independent audit); from a cold start it is false for every `n0`.
+4. Section 4: every theorem above re-stated for the GENERATED `RGG.generalizedBeliefPropagation` (`gen_gbp_*`, one rewrite
+   with `C17G.gen_gbp`), so C16F speaks about the regenerated source, not only about the model `RG.gbp`.
 2. `gbp_fixed_point_exact_two_cliques` — junction tree with **two maximal cliques** `c1, c2` and separator
    `s = c1 ∩ c2` (edge `c2 → s` with empty `N`, `D`; `B[c1] = {(c2,s)}`): the table of `c1` is, at every cell,
    `T · Σ_{x∖c1} exp(θ_c1 + θ_c2) / Z` of the product model (`LbpTree.marginalR` / `partitionR`, the brute-force
@@ -175,7 +181,13 @@ theorem gbp_fixed_point_equation (dom : Dom) (g : RG.Graph) (pot : Region → Fa
 /-! ## 3. stationary sweeps -/
 
 /-- **if the sweeps become stationary after `n0` sweeps, `RG.gbp` returns the same answer for every `iters ≥ n0`**
-(tables and persisted messages) -/
+(tables and persisted messages).
+
+WARM-START statement: `hstat` (literal equality of message states) holds only when the start state `m0` ALREADY is the fixed
+point — on a flat graph (`N = D = ∅`) each damped sweep replaces a message by the mean of itself and the fixed value, so a
+state reached after `n0` sweeps is fixed iff `m0` had the fixed-point values at every cell (`stationary_forces_start`, below).
+From the empty / initial messages `hstat` is false for every `n0`; what the theorem covers is a call that starts from the
+persisted messages of an earlier, converged call (`self.messages`). -/
 theorem gbp_stationary (dom : Dom) (g : RG.Graph) (pots : CliqueVec ℝ) (T : ℝ) (m0 : Msgs ℝ) (n0 iters : Nat)
     (hstat : gbpSweep g (potOf dom g pots) (iterate (gbpSweep g (potOf dom g pots)) n0 m0)
       = iterate (gbpSweep g (potOf dom g pots)) n0 m0)
@@ -579,5 +591,198 @@ example (T : ℝ) (hT : 0 < T) (σ : Attr → Nat) (hσ : exDom4.Valid σ) :
       unfold LbpTree.logJoint
       simp only [List.map_cons, List.map_nil, List.sum_cons, List.sum_nil]
       ring) σ hσ
+
+/-! ## 3'. `hstat` of `gbp_stationary` forces the start state (independent audit, `audit/scratch/c16_stat.lean`) -/
+
+/-- On a flat graph (`N = D = ∅`, e.g. every two-clique junction tree), if the state reached after `n` sweeps from `m` is a
+(cell-wise) fixed point, then `m` ITSELF already had the fixed-point values: the damped iteration never reaches a fixed point
+it did not start at.  So `gbp_stationary` / `gbp_stationary_exact_two_cliques` are warm-start statements. -/
+theorem stationary_forces_start {dom : Dom} {g : RG.Graph} {pot : Region → Factor ℝ}
+    (hND : ∀ e ∈ g.messageOrder, look g.N e = [] ∧ look g.D e = []) :
+    ∀ (n : Nat) (m : Msgs ℝ), Hyp dom g pot m → SemFixed dom g pot (iterate (gbpSweep g pot) n m) →
+      ∀ e ∈ g.messageOrder, ∀ σ, dom.Valid σ → (m.get e).sem σ = (newMsg g pot [] [] e).sem σ := by
+  have hindep : ∀ e ∈ g.messageOrder, ∀ msgs new : Msgs ℝ, newMsg g pot msgs new e = newMsg g pot [] [] e := by
+    intro e he msgs new
+    unfold newMsg
+    rw [(hND e he).1, (hND e he).2]
+    rfl
+  have step : ∀ (m : Msgs ℝ), Hyp dom g pot m → ∀ e ∈ g.messageOrder, ∀ σ, dom.Valid σ →
+      ((gbpSweep g pot m).get e).sem σ = ((m.get e).sem σ + (newMsg g pot [] [] e).sem σ) / 2 := by
+    intro m h e he σ hσ
+    have hs := newDict_sub h e he
+    rw [gbpSweep_get g pot m h.order_nodup e, if_pos he,
+      damp2_sem h.gok.dom_wf (h.msg_sub he) hs hσ,
+      newDict_get g pot m h.order_nodup h.D_before e he, hindep e he]
+  intro n
+  induction n with
+  | zero =>
+    intro m h hfix e he σ hσ
+    have h1 := hfix e he σ hσ
+    show (m.get e).sem σ = _
+    have h2 := step m h e he σ hσ
+    simp only [iterate] at h1
+    linarith
+  | succ n ih =>
+    intro m h hfix e he σ hσ
+    have h1 := ih (gbpSweep g pot m) h.sweep hfix e he σ hσ
+    have h2 := step m h e he σ hσ
+    linarith
+
+/-- cold start on `A-B / B-C / B`: if `gbp_stationary`'s hypothesis held for some `n0`, every fixed-point message would be the
+zero function — impossible for normalised messages on a region with ≥ 2 cells -/
+example (pot : Region → Factor ℝ) (hpot : ∀ r ∈ exG.regions, On exDom r (pot r)) (n0 : Nat)
+    (hstat : gbpSweep exG pot (iterate (gbpSweep exG pot) n0 []) = iterate (gbpSweep exG pot) n0 []) :
+    ∀ e ∈ exG.messageOrder, ∀ σ, exDom.Valid σ → (newMsg exG pot [] [] e).sem σ = 0 := by
+  have hb := buildOn_ok [["A", "B"], ["B", "C"], ["B"]] false true (by decide)
+  have h0 : Hyp exDom exG pot [] :=
+    hyp_nil ⟨exDom_wf, exG_regs, hpot, hb.children_sub, hb.parents_dual⟩ exDom_pos exG_shape
+  intro e he σ hσ
+  have := stationary_forces_start exG_flat n0 [] h0 (semFixed_of_eq _ _ _ _ hstat) e he σ hσ
+  rw [← this]
+  exact zeros_sem_real [] σ
+
+/-! ## satisfiability with ARBITRARY potentials on `AB – BC – CD` (independent audit, `audit/scratch/c16_generic.lean`): the
+examples above instantiate zero potentials only -/
+
+section generic
+variable (pots : CliqueVec ℝ) (hp : ∀ r ∈ exChain2.regions, On exDom4 r (pots.get r))
+include hp
+
+theorem gen_on : ∀ r ∈ exChain2.regions, On exDom4 r (potOf exDom4 exChain2 pots r) := by
+  intro r hr
+  rw [potOf_eq _ _ _ r (exChain2_cliques r hr)]
+  exact hp r hr
+
+/-- two rounds of the recursion from the empty state: an explicit fixed point for any potentials -/
+noncomputable def gM (pots : CliqueVec ℝ) : Msgs ℝ :=
+  newDict exChain2 (potOf exDom4 exChain2 pots) (newDict exChain2 (potOf exDom4 exChain2 pots) [])
+
+theorem gM_fixed : Hyp exDom4 exChain2 (potOf exDom4 exChain2 pots) (gM pots) ∧
+    SemFixed exDom4 exChain2 (potOf exDom4 exChain2 pots) (gM pots) := by
+  have hb := buildOn_ok [["A", "B"], ["B", "C"], ["C", "D"], ["B"], ["C"]] false true (by decide)
+  exact depth2_fixed ⟨exDom4_wf, exChain2_regs, gen_on pots hp, hb.children_sub, hb.parents_dual⟩ exDom4_pos
+    (shape_buildOn _ (by decide) (by decide)) exChain2_depth
+
+theorem gG4 : LbpTree.GraphOK exDom4 [["A", "B"], ["B", "C"], ["C", "D"]] pots := by
+  refine ⟨exDom4_wf, by decide, ?_, ?_, ?_⟩
+  · intro cl hcl; exact (exChain2_regs cl (by revert cl; decide)).1
+  · intro cl hcl; exact (exChain2_regs cl (by revert cl; decide)).2
+  · intro cl hcl
+    exact hp cl (by revert cl; decide)
+
+/-- `gbp_fixed_point_exact_chain_mid` on the interior clique `BC`, for ANY potentials laid out on the regions -/
+theorem ex_chain_mid_generic (T : ℝ) (hT : 0 < T) (σ : Attr → Nat) (hσ : exDom4.Valid σ) :
+    ((RG.gbp exDom4 exChain2 pots T 0 (gM pots)).1.get ["B", "C"]).sem σ
+      = T * LbpTree.marginalR exDom4 [["A", "B"], ["B", "C"], ["C", "D"]] pots ["B", "C"] σ
+          / LbpTree.partitionR exDom4 [["A", "B"], ["B", "C"], ["C", "D"]] pots :=
+  gbp_fixed_point_exact_chain_mid exDom4 exChain2 pots T (gM pots) (gM_fixed pots hp).1 (gM_fixed pots hp).2 hT _ (gG4 pots hp)
+    ["B", "C"] (by decide) (by decide) (by decide) (["A", "B"], ["B"]) (["C", "D"], ["C"]) _ _ _ _
+    (Fwd.base _ (by decide) (by decide) (by decide)) (Fwd.base _ (by decide) (by decide) (by decide))
+    (by decide) (by decide) (rip_of_bounded (by decide)) (by decide) (rip_of_bounded (by decide))
+    (fun a h1 h2 => (by decide : ∀ a ∈ ["A", "B"], (["C", "D"].contains a) = true → a ∈ ["B", "C"]) a
+      (List.contains_iff_mem.mp h1) h2)
+    (fun τ => by
+      rw [potOf_eq _ _ _ _ (by decide : ["B", "C"] ∈ exChain2.cliques)]
+      show LbpTree.logJoint _ _ τ = _ + (potOf exDom4 exChain2 pots ["A", "B"]).sem τ
+        + (potOf exDom4 exChain2 pots ["C", "D"]).sem τ
+      rw [potOf_eq _ _ _ _ (by decide : ["A", "B"] ∈ exChain2.cliques),
+        potOf_eq _ _ _ _ (by decide : ["C", "D"] ∈ exChain2.cliques)]
+      unfold LbpTree.logJoint
+      simp only [List.map_cons, List.map_nil, List.sum_cons, List.sum_nil]
+      ring) σ hσ
+end generic
+
+/-! ## 4. the GENERATED code: the theorems above for `RGG.generalizedBeliefPropagation` (`tools/py2rg.py`)
+
+`C17G.gen_gbp`: on every graph whose message order starts at regions (part of `Hyp`: `order_sound`), the regenerated
+`generalized_belief_propagation` IS `RG.gbp` (returned CliqueVector and final `self.messages`).  One rewrite each. -/
+
+/-- the regenerated oracle is the model's, under `Hyp` -/
+theorem gen_gbp_eq (dom : Dom) (g : RG.Graph) (pots : CliqueVec ℝ) (T : ℝ) (iters : Nat) (m : Msgs ℝ)
+    (h : Hyp dom g (potOf dom g pots) m) :
+    RGG.generalizedBeliefPropagation dom g.regions g.cliques g.N g.D g.B g.messageOrder T iters pots m
+      = RG.gbp dom g pots T iters m :=
+  PGM.C17G.gen_gbp dom g pots T iters m (fun e he => (h.order_sound e he).1)
+
+/-- `gbp_fixed_point_exact_two_cliques` for the GENERATED oracle -/
+theorem gen_gbp_fixed_point_exact_two_cliques (dom : Dom) (g : RG.Graph) (pots : CliqueVec ℝ) (T : ℝ) (m : Msgs ℝ)
+    (h : Hyp dom g (potOf dom g pots) m) (hfix : SemFixed dom g (potOf dom g pots) m) (hT : 0 < T)
+    (c1 c2 s : Region) (hne : c1 ≠ c2) (hc1 : c1 ∈ g.regions) (hc1' : c1 ∈ g.cliques) (hc2' : c2 ∈ g.cliques)
+    (he2 : (c2, s) ∈ g.messageOrder)
+    (hN : look g.N (c2, s) = []) (hD : look g.D (c2, s) = []) (hB1 : look g.B c1 = [(c2, s)])
+    (hsep : ∀ a, a ∈ s ↔ (a ∈ c1 ∧ a ∈ c2)) (σ : Attr → Nat) (hσ : dom.Valid σ) :
+    ((RGG.generalizedBeliefPropagation dom g.regions g.cliques g.N g.D g.B g.messageOrder T 0 pots m).1.get c1).sem σ
+      = T * LbpTree.marginalR dom [c1, c2] pots c1 σ / LbpTree.partitionR dom [c1, c2] pots := by
+  rw [gen_gbp_eq dom g pots T 0 m h]
+  exact gbp_fixed_point_exact_two_cliques dom g pots T m h hfix hT c1 c2 s hne hc1 hc1' hc2' he2 hN hD hB1 hsep σ hσ
+
+/-- `gbp_fixed_point_exact_chain_end` for the GENERATED oracle -/
+theorem gen_gbp_fixed_point_exact_chain_end (dom : Dom) (g : RG.Graph) (pots : CliqueVec ℝ) (T : ℝ) (m : Msgs ℝ)
+    (h : Hyp dom g (potOf dom g pots) m) (hfix : SemFixed dom g (potOf dom g pots) m) (hT : 0 < T)
+    (cliques : List Region) (hG : LbpTree.GraphOK dom cliques pots)
+    (c0 : Region) (hc : c0 ∈ cliques) (hc0 : c0 ∈ g.regions) (hc0' : c0 ∈ g.cliques)
+    (e1 : Edge) (q1 : Attr → Bool) (Θ1 : (Attr → Nat) → ℝ) (hf : Fwd g (potOf dom g pots) e1 q1 Θ1)
+    (hB : look g.B c0 = [e1]) (hs1 : ∀ a ∈ e1.2, a ∈ c0) (hrip : ∀ a, q1 a = true → a ∈ c0 → a ∈ e1.2)
+    (hjoint : ∀ τ, LbpTree.logJoint cliques pots τ = (potOf dom g pots c0).sem τ + Θ1 τ)
+    (σ : Attr → Nat) (hσ : dom.Valid σ) :
+    ((RGG.generalizedBeliefPropagation dom g.regions g.cliques g.N g.D g.B g.messageOrder T 0 pots m).1.get c0).sem σ
+      = T * LbpTree.marginalR dom cliques pots c0 σ / LbpTree.partitionR dom cliques pots := by
+  rw [gen_gbp_eq dom g pots T 0 m h]
+  exact gbp_fixed_point_exact_chain_end dom g pots T m h hfix hT cliques hG c0 hc hc0 hc0' e1 q1 Θ1 hf hB hs1 hrip hjoint σ hσ
+
+/-- `gbp_fixed_point_exact_chain_mid` for the GENERATED oracle -/
+theorem gen_gbp_fixed_point_exact_chain_mid (dom : Dom) (g : RG.Graph) (pots : CliqueVec ℝ) (T : ℝ) (m : Msgs ℝ)
+    (h : Hyp dom g (potOf dom g pots) m) (hfix : SemFixed dom g (potOf dom g pots) m) (hT : 0 < T)
+    (cliques : List Region) (hG : LbpTree.GraphOK dom cliques pots)
+    (c0 : Region) (hc : c0 ∈ cliques) (hc0 : c0 ∈ g.regions) (hc0' : c0 ∈ g.cliques)
+    (e1 e2 : Edge) (q1 q2 : Attr → Bool) (Θ1 Θ2 : (Attr → Nat) → ℝ)
+    (hf1 : Fwd g (potOf dom g pots) e1 q1 Θ1) (hf2 : Fwd g (potOf dom g pots) e2 q2 Θ2)
+    (hB : (look g.B c0).Perm [e1, e2])
+    (hs1 : ∀ a ∈ e1.2, a ∈ c0) (hrip1 : ∀ a, q1 a = true → a ∈ c0 → a ∈ e1.2)
+    (hs2 : ∀ a ∈ e2.2, a ∈ c0) (hrip2 : ∀ a, q2 a = true → a ∈ c0 → a ∈ e2.2)
+    (hdisj : ∀ a, q1 a = true → q2 a = true → a ∈ c0)
+    (hjoint : ∀ τ, LbpTree.logJoint cliques pots τ = (potOf dom g pots c0).sem τ + Θ1 τ + Θ2 τ)
+    (σ : Attr → Nat) (hσ : dom.Valid σ) :
+    ((RGG.generalizedBeliefPropagation dom g.regions g.cliques g.N g.D g.B g.messageOrder T 0 pots m).1.get c0).sem σ
+      = T * LbpTree.marginalR dom cliques pots c0 σ / LbpTree.partitionR dom cliques pots := by
+  rw [gen_gbp_eq dom g pots T 0 m h]
+  exact gbp_fixed_point_exact_chain_mid dom g pots T m h hfix hT cliques hG c0 hc hc0 hc0' e1 e2 q1 q2 Θ1 Θ2 hf1 hf2 hB
+    hs1 hrip1 hs2 hrip2 hdisj hjoint σ hσ
+
+/-- `gbp_stationary` for the GENERATED oracle (a warm-start statement, see `stationary_forces_start`) -/
+theorem gen_gbp_stationary (dom : Dom) (g : RG.Graph) (pots : CliqueVec ℝ) (T : ℝ) (m0 : Msgs ℝ) (n0 iters : Nat)
+    (h : Hyp dom g (potOf dom g pots) m0)
+    (hstat : gbpSweep g (potOf dom g pots) (iterate (gbpSweep g (potOf dom g pots)) n0 m0)
+      = iterate (gbpSweep g (potOf dom g pots)) n0 m0)
+    (hn : n0 ≤ iters) :
+    RGG.generalizedBeliefPropagation dom g.regions g.cliques g.N g.D g.B g.messageOrder T iters pots m0
+      = RGG.generalizedBeliefPropagation dom g.regions g.cliques g.N g.D g.B g.messageOrder T n0 pots m0 := by
+  rw [gen_gbp_eq dom g pots T iters m0 h, gen_gbp_eq dom g pots T n0 m0 h]
+  exact gbp_stationary dom g pots T m0 n0 iters hstat hn
+
+/-- `gbp_stationary_exact_two_cliques` for the GENERATED oracle -/
+theorem gen_gbp_stationary_exact_two_cliques (dom : Dom) (g : RG.Graph) (pots : CliqueVec ℝ) (T : ℝ) (m0 : Msgs ℝ)
+    (n0 iters : Nat) (h : Hyp dom g (potOf dom g pots) m0)
+    (hstat : gbpSweep g (potOf dom g pots) (iterate (gbpSweep g (potOf dom g pots)) n0 m0)
+      = iterate (gbpSweep g (potOf dom g pots)) n0 m0)
+    (hn : n0 ≤ iters) (hT : 0 < T)
+    (c1 c2 s : Region) (hne : c1 ≠ c2) (hc1 : c1 ∈ g.regions) (hc1' : c1 ∈ g.cliques) (hc2' : c2 ∈ g.cliques)
+    (he2 : (c2, s) ∈ g.messageOrder)
+    (hN : look g.N (c2, s) = []) (hD : look g.D (c2, s) = []) (hB1 : look g.B c1 = [(c2, s)])
+    (hsep : ∀ a, a ∈ s ↔ (a ∈ c1 ∧ a ∈ c2)) (σ : Attr → Nat) (hσ : dom.Valid σ) :
+    ((RGG.generalizedBeliefPropagation dom g.regions g.cliques g.N g.D g.B g.messageOrder T iters pots m0).1.get c1).sem σ
+      = T * LbpTree.marginalR dom [c1, c2] pots c1 σ / LbpTree.partitionR dom [c1, c2] pots := by
+  rw [gen_gbp_eq dom g pots T iters m0 h]
+  exact gbp_stationary_exact_two_cliques dom g pots T m0 n0 iters h hstat hn hT c1 c2 s hne hc1 hc1' hc2' he2 hN hD hB1 hsep σ hσ
+
+/-- the generic-potential chain example, for the GENERATED oracle -/
+example (pots : CliqueVec ℝ) (hp : ∀ r ∈ exChain2.regions, On exDom4 r (pots.get r))
+    (T : ℝ) (hT : 0 < T) (σ : Attr → Nat) (hσ : exDom4.Valid σ) :
+    ((RGG.generalizedBeliefPropagation exDom4 exChain2.regions exChain2.cliques exChain2.N exChain2.D exChain2.B
+        exChain2.messageOrder T 0 pots (gM pots)).1.get ["B", "C"]).sem σ
+      = T * LbpTree.marginalR exDom4 [["A", "B"], ["B", "C"], ["C", "D"]] pots ["B", "C"] σ
+          / LbpTree.partitionR exDom4 [["A", "B"], ["B", "C"], ["C", "D"]] pots := by
+  rw [gen_gbp_eq exDom4 exChain2 pots T 0 (gM pots) (gM_fixed pots hp).1]
+  exact ex_chain_mid_generic pots hp T hT σ hσ
 
 end PGM.C16F
